@@ -49,6 +49,9 @@ def check_chunk(col, kind, shapes, G, subtypes, seed, chunk_id=0, transforms=Non
 
     for sti, st in enumerate(subtypes):
         tlist = transforms or [L.transform_for(st, seed, salt=chunk_id)]
+        if transforms is None and st in ("int16", "int32") and not half:
+            # scale 2^8 / 2^16: products of coordinate differences are multiples of 2^16 / 2^32 (wrap to 0 in the subtype's own arithmetic)
+            tlist = tlist + [((256, 0, 0) if st == "int16" else (65536, 0, 0))]
         if transforms is None and st == "float64":
             # always also place lattice point (2,2) at the origin: a missing fixed-width point is
             # stored as zero bytes, i.e. as the point (0,0)
@@ -142,6 +145,26 @@ def check_chunk(col, kind, shapes, G, subtypes, seed, chunk_id=0, transforms=Non
                     if list(gs.index) != list(ser.index) or (gs.values != expn).any():
                         col.violation(f"{kind}.geoseries", dict(case, form="geoseries"),
                                       f"GeoSeries.intersects differs from array form")
+                # ---- scalars built directly from arrays of the subtype (an element taken from an array is widened to 64 bits,
+                # one constructed by the caller keeps its narrow type)
+                if kind in ("line", "multipoint", "multiline") and st in ("int16", "int32", "float32") and not half and e not in (None, ()):
+                    try:
+                        from spatialpandas.geometry import Line, MultiLine, MultiPoint, Point
+                        nested = L.to_nested(kind, e, T)
+                        if kind == "multiline":
+                            dshape = MultiLine([np.asarray(part, dtype=st) for part in nested])
+                        else:
+                            dshape = (Line if kind == "line" else MultiPoint)(np.asarray(nested, dtype=st))
+                        for pi in range(0, npt, 1 if T[0] >= 256 else 3):
+                            col.count("evaluations")
+                            dp = Point(np.asarray(L.tf(T, *qpts[pi]), dtype=st))
+                            g = bool(dp.intersects(dshape))
+                            if g != bool(ref[pi]):
+                                col.violation(f"{kind}.scalar_direct", dict(case, form="scalar_direct", point=list(qpts[pi])),
+                                              f"Point({st}) {qpts[pi]} vs {kind}({st}) {jelem(e)} (T={T}): {g}, array form {bool(ref[pi])}", subtype=st)
+                                break
+                    except Exception as ex:
+                        col.violation(f"{kind}.scalar_direct.raises", dict(case, form="scalar_direct"), f"{type(ex).__name__}: {ex}")
                 # ---- scalar
                 if st == "float64" or (si + sti) % 5 == 0:
                     for pi in range(npt):
